@@ -13,15 +13,29 @@ Spec validation (infrastructure, not a verdict on jsoncons): the spec evaluates 
 (spec/gen/MC_C13corpus.tla, produced by `python3 checks/c13.py mkcorpus` with the reference parser below) and
 must reproduce every expected result; parse(Show(e)) = e is checked with the same parser on generated cases."""
 import json, os, sys, re, glob
+from decimal import Decimal
 if __name__ == '__main__':
     sys.path.insert(0, os.path.join(os.path.dirname(os.path.abspath(__file__)), '..', 'lib'))
 import vf
 
 PROP = 'C13'
 CFG = {'quick': ['gen/MC_C13wrap_q.cfg', 'gen/MC_C13deep_q.cfg', 'gen/MC_C13fn_q.cfg', 'gen/MC_C13slice_q.cfg',
-                 'gen/MC_C13cmp.cfg', 'gen/MC_C13ident.cfg', 'gen/MC_C13stable.cfg'],
+                 'gen/MC_C13cmp.cfg', 'gen/MC_C13ident.cfg', 'gen/MC_C13stable.cfg',
+                 'gen/MC_C13frac_q.cfg', 'gen/MC_C13fracarr_q.cfg', 'gen/MC_C13fracdoc_q.cfg'],
        'thorough': ['gen/MC_C13wrap_q.cfg', 'gen/MC_C13deep_t.cfg', 'gen/MC_C13mix_t.cfg', 'gen/MC_C13fn_t.cfg',
-                    'gen/MC_C13slice_t.cfg', 'gen/MC_C13cmp.cfg', 'gen/MC_C13ident.cfg', 'gen/MC_C13stable.cfg']}
+                    'gen/MC_C13slice_t.cfg', 'gen/MC_C13cmp.cfg', 'gen/MC_C13ident.cfg', 'gen/MC_C13stable.cfg',
+                    'gen/MC_C13frac_t.cfg', 'gen/MC_C13fracarr_t.cfg', 'gen/MC_C13fracdoc_t.cfg']}
+# Deviation classes whose known_findings.jsonl line is proposed in notes/C13.md ("SUSPECTED DEFECTS") but may not have been
+# added to /verif/known_findings.jsonl yet (that file is not this check's to edit).  While the file does not mention the
+# class at all, a mismatch on a (case, document) tagged with it is reported as a SUSPECTED-DEFECT line instead of a
+# VIOLATION; as soon as the file has an entry naming the class (status known: KNOWN-FINDING; status fixed: any mismatch is a
+# VIOLATION again) this table has no effect.  Only the kinds of observation the root cause can produce are covered.
+PENDING_FINDINGS = {
+    'to_number-non-json-number': dict(
+        what='value|error-expected|unexpected-error',
+        text="jmespath to_number(): a string that is not a json-number is converted to a number instead of null (lenient to_integer / "
+             "std::from_chars prefix parse): to_number('1.5.2') gives 1.5, to_number('0x10') 16, to_number('01') 1, to_number('.5') 0.5, "
+             "to_number('1 ') 1, to_number('nan') NaN (spec: null)")}
 DOCS_CFG = 'gen/MC_C13docs.cfg'
 RT_CFG = {'quick': 'gen/MC_C13rt_q.cfg', 'thorough': 'gen/MC_C13rt_t.cfg'}   # wrap cases emitted with their trees
 
@@ -50,7 +64,9 @@ def cps(s):
 
 
 def wire_of(v):
-    """python JSON value -> JsonValue!Wire form (members sorted by key); floats are not representable"""
+    """python JSON value (numbers with a fraction / exponent parsed as Decimal: json.loads(.., parse_float=Decimal)) ->
+    JsonValue!Wire form (members sorted by key).  A Decimal becomes ['dec', m, e] with exactly the digits and exponent of
+    its text (1.0 -> 10, -1;  1e2 -> 1, 2;  0.50 -> 50, -2), which is how spec/Jmespath.tla writes such a literal."""
     if v is None:
         return ['null']
     if isinstance(v, bool):
@@ -59,6 +75,12 @@ def wire_of(v):
         return ['int', v]
     if isinstance(v, float):
         raise ValueError('float')
+    if isinstance(v, Decimal):
+        sign, digits, ex = v.as_tuple()
+        if not isinstance(ex, int):
+            raise ValueError('non-finite')
+        m = int(''.join(str(d) for d in digits) or '0')
+        return ['dec', -m if sign else m, ex]
     if isinstance(v, str):
         return ['str', cps(v)]
     if isinstance(v, list):
@@ -132,7 +154,7 @@ def tokenize(s):
                 raise JmesSyntaxError('unterminated literal')
             txt = ''.join(out)
             try:
-                val = json.loads(txt)
+                val = json.loads(txt, parse_float=Decimal)
             except ValueError:
                 raise JmesSyntaxError('literal is not JSON (deprecated bare form): ' + txt)
             toks.append(('literal', val)); i = j + 1
@@ -405,6 +427,11 @@ def tla_val(w):
         if abs(w[1]) > 10 ** 9:
             raise ValueError('big int')
         return 'JInt(%s)' % (w[1] if w[1] >= 0 else '(0 - %d)' % -w[1])
+    if k == 'dec':
+        if abs(w[1]) > 10 ** 7 or abs(w[2]) > 6:
+            raise ValueError('decimal outside the model')
+        neg = lambda n: str(n) if n >= 0 else '(0 - %d)' % -n
+        return '<<"dec", %s, %s>>' % (neg(w[1]), neg(w[2]))
     if k == 'str':
         return 'JStr(%s)' % tla_cps(w[1])
     if k == 'arr':
@@ -454,25 +481,15 @@ def tla_ast(e):
     raise ValueError(k)
 
 
-def has_float(v):
-    if isinstance(v, float):
-        return True
-    if isinstance(v, list):
-        return any(has_float(x) for x in v)
-    if isinstance(v, dict):
-        return any(has_float(x) for x in v.values())
-    return False
-
-
 def mkcorpus(src='/repo/test/jmespath/input/compliance', out=None):
-    """Translate the official compliance suite into spec/gen/MC_C13corpus.tla.  Cases outside the model
-    (floating point data, deprecated literal forms, syntax-error cases - the spec has no parser) are
-    listed in the module header with the reason."""
+    """Translate the official compliance suite into spec/gen/MC_C13corpus.tla.  Numbers with a fraction are exact
+    decimals <<"dec", m, e>>.  Cases outside the model (deprecated literal forms, syntax-error cases - the spec has
+    no parser) are listed in the module header with the reason."""
     out = out or os.path.join(vf.SPEC, 'gen', 'MC_C13corpus.tla')
     rows, skipped, nsyntax, nsyntax_rej = [], [], 0, 0
     for f in sorted(glob.glob(os.path.join(src, '*.json'))):
         name = os.path.basename(f)[:-5]
-        for gi, g in enumerate(json.load(open(f))):
+        for gi, g in enumerate(json.load(open(f), parse_float=Decimal)):
             for ci, c in enumerate(g['cases']):
                 tag = '%s/%d/%d' % (name, gi, ci)
                 ex = c['expression']
@@ -490,16 +507,8 @@ def mkcorpus(src='/repo/test/jmespath/input/compliance', out=None):
                 except JmesSyntaxError as e:
                     skipped.append((tag, 'reference parser: %s' % e)); continue
                 except ValueError as e:
-                    skipped.append((tag, 'floating point literal')); continue
-                if has_float(g['given']) and name != 'functions':
-                    skipped.append((tag, 'floating point document')); continue
+                    skipped.append((tag, 'literal not representable: %s' % e)); continue
                 given = g['given']
-                if name == 'functions' and isinstance(given, dict) and 'decimals' in given:
-                    if 'decimals' in ex or '1.2' in ex or '1.0' in ex or '1.1' in ex or ex == 'avg(numbers)':
-                        skipped.append((tag, 'floating point')); continue
-                    given = {k: v for k, v in given.items() if k != 'decimals'}
-                    if ex == 'length(@)':
-                        skipped.append((tag, 'document reduced (decimals member dropped)')); continue
                 try:
                     d = tla_val(wire_of(given))
                     a = tla_ast(ast)
@@ -563,6 +572,31 @@ def sig(r):
     return s
 
 
+def pending_findings(rep):
+    """see PENDING_FINDINGS"""
+    try:
+        known_text = open(os.path.join(vf.VERIF, 'known_findings.jsonl')).read()
+    except OSError:
+        known_text = ''
+    known = vf.load_known(PROP)
+    for name, p in PENDING_FINDINGS.items():
+        if name in known_text:
+            continue
+        keep, n = [], 0
+        for v in rep.violations:
+            sg = v['sig']
+            if (name in str(sg.get('dev', '')).split(',') and re.fullmatch(p['what'], str(sg.get('what', '')))
+                    and not any(vf.sig_matches(e['match'], sg) for e in known)):
+                n += 1
+            else:
+                keep.append(v)
+        if n:
+            rep.violations[:] = keep
+            rep.notes.append('suspected defect pending a known_findings.jsonl entry: %s (%d cases)' % (name, n))
+            print('SUSPECTED-DEFECT (known_findings.jsonl entry pending, see notes/C13.md): property=%s class=%s %s (%d cases)'
+                  % (PROP, name, p['text'], n))
+
+
 def docs_file():
     return vf.tlc_gen('gen/MC_C13', DOCS_CFG, timeout=600)[0]
 
@@ -615,6 +649,7 @@ def run(tier):
     v = validate_spec(tier, [p for p, _ in g])
     rep.add_tlc(v['rt_meta']); rep.add_tlc(v['valid_meta'])
     totals = vf.g_replay(rep, binary, g, sig, args=['--docs', docs], max_repro=600)
+    pending_findings(rep)
     cov = rep.coverage
     cov['traces_validated_against_impl'] = totals.get('cases', 0)
     cov['evaluations'] = totals.get('checks', 0)
@@ -630,15 +665,27 @@ def run(tier):
                    'argument tuple over an 18-value typed alphabet for 0-2 arguments (7-value alphabet for 3): well-typed, ill-typed, wrong arity, unknown '
                    'function; (slice) every [a:b:c] with a,b,c absent or in -R..R, R = 3 | 5, and indexes, over arrays of length 0-5 and non-arrays; (cmp) all '
                    'comparators, &&, ||, ! over all pairs of 14 values of every type; (ident) quoted / escaped / non-ASCII identifiers, hash keys, literals, '
-                   'raw strings; (stable) sort_by / sort / max_by / min_by / reverse / map over arrays of 17-40 elements with 2-3 distinct keys and a unique id (stability of sort_by; a library sort loses stability only above 16 elements), 154 expressions x 7 documents. 22 documents incl. empty containers, nulls, mixed arrays, nested arrays, sort ties, non-ASCII and quoted keys. '
+                   'raw strings; (frac) numbers with a fraction, exact decimals in the spec: every built-in (+ unknown name) x 1-3 argument tuples over a number '
+                   'alphabet of 18 | 34 values mixing integers, negative / positive fractions, doubles with a zero fraction (1.0, 2.0, 0.0), exponent form (1e2), '
+                   'non-dyadic fractions (0.1, 1.2, -0.7) and non-numbers; all six comparators over all pairs of the alphabet, against every other type, inside one-element '
+                   'arrays / objects (deep equality by value), against document members; truthiness; to_number over 47 strings (json-numbers in every notation and near '
+                   'misses: ".5", "5.", "01", "+1", " 1", "1 ", "0x10", "1e", "1.5.2", "nan", "Infinity" ...), to_string / to_number round trips; fractional literals in '
+                   'containers, multi-selects, pipes; thorough adds one layer of 30 numeric outer wraps (abs ceil floor sum avg max min sort comparators filters map ...); '
+                   '(fracarr) every array of 0-3 numbers over 5 values (0-4 over 8 in thorough; all dyadic so that sums and averages are exact; 2 and 2.0 both present: '
+                   'ties, maximum not last, one element) as literal under every built-in, sort_by / max_by / min_by / map with &@ / &abs(@) / &ceil(@), contains, filters, '
+                   'sum/avg/ceil/floor compositions, and as array of {k, id} objects under sort_by / max_by / min_by / filters / projections; (fracdoc) the same functions, '
+                   'filters [?@ op `x`] / [?k op `x`] with all comparators and 8 fractional operands on both sides, projections, map, indexes, comparisons between members, '
+                   'contains over 7 documents holding fractional numbers built as C++ doubles / integers (not parsed) incl. non-dyadic values and number-like strings; '
+                   '(stable) sort_by / sort / max_by / min_by / reverse / map over arrays of 17-40 elements with 2-3 distinct keys and a unique id (stability of sort_by; a library sort loses stability only above 16 elements), 154 expressions x 7 documents. 22 documents incl. empty containers, nulls, mixed arrays, nested arrays, sort ties, non-ASCII and quoted keys. '
                    'evaluations = (case, document, flavour json|ojson) x 4 entry points; distinct_nontrivial = evaluations with a non-null predicted value or a '
                    'predicted error')
     cov['bounds'] = {c: open(os.path.join(vf.SPEC, c)).read().split('CONSTANTS')[1].split('KnownDeviations')[0].split() for c in CFG[tier]}
-    kd = open(os.path.join(vf.SPEC, CFG[tier][0])).read().split('KnownDeviations =')[1].strip()
+    kd = '{' + ', '.join(sorted(set(n for c in CFG[tier]
+                                     for n in re.findall(r'"[^"]+"', open(os.path.join(vf.SPEC, c)).read().split('KnownDeviations =')[1])))) + '}'
     cov['known_deviation_classes_tagged'] = kd
     cov['samples'] = vf.sample_lines(g[0][0], 2) + vf.sample_lines(g[2][0], 1)
     rep.assumptions += [
-        'numbers are small integers; floating-point results (avg), to_string of anything but strings and booleans, to_number of strings that are not canonical integers are dont-care',
+        'numbers are small integers and exact decimals with at most 4 fraction digits; a returned double must be bit-for-bit the double nearest to the predicted decimal, numbers compare by value (an integer and a double with the same value are the same JMESPath number); dont-care: sum / avg over elements that are not dyadic rationals (binary floating point rounding, e.g. 0.1 + 0.2), avg whose exact quotient needs more than 4 additional fraction digits (1/3), to_string of a number with an integral value (1 vs 1.0 vs 1e2) or more than 3 fraction digits, to_string of containers / null, to_number of a json-number with more than 7 digits / exponent beyond +-6; negative zero, NaN and infinities are not generated',
         'the enumeration order of object members is unspecified: order-dependent results are accepted in ascending or descending key order for json, verdict only for ojson',
         'an error is always acceptable for an expression that contains an unknown function, a wrong arity, a zero slice step or merge()/not_null() without arguments but does not evaluate it',
         'a value or an error is acceptable when || / && decides on the left operand and the right operand would fail (the specification does not say the right side is skipped)',
